@@ -19,7 +19,7 @@ from __future__ import annotations
 
 import ast
 
-from ..astx import attr_writes, call_name, calls, walk_local
+from ..astx import attr_writes, call_name, calls, inline_locals, walk_local
 from ..cfg import CFG
 from ..loader import NOFOLD, AnalysisError, Repo
 from ..report import Check, canon
@@ -198,19 +198,45 @@ def run(chk: Check, repo: Repo) -> None:
         return repo.const(c_, "payload_length") == 1 and len(rets) == 1 and isinstance(rets[0].value, ast.Call) and call_name(rets[0].value) == "DPTArray" and len(rets[0].value.args) == 1 and isinstance(rets[0].value.args[0], ast.Name)
 
     def string_padding_non_negative() -> bool:
+        """the octets whose count is subtracted are `<text>.encode(<single-octet codec>, errors='replace')` and the
+        subtraction is reached only where cls._test_boundaries(<the same text>) held, which is len(text) <= payload_length"""
         c_ = repo.cls("xknx.dpt.dpt_16", "DPTString")
         m_ = repo.lookup_method(c_, "to_knx")
         tb = repo.lookup_method(c_, "_test_boundaries")
-        src, tsrc = ast.unparse(m_.node), ast.unparse(tb.node)
         encs = {repo.const(k, "_encoding") for k in [c_] + repo.subclasses(c_, strict=True)}
-        return "if not cls._test_boundaries(knx_value):" in src and "return len(value) <= cls.payload_length" in tsrc and "errors='replace'" in src and encs <= {"ascii", "latin_1"}
+        tparam = tb.node.args.args[1].arg
+        trets = [n for n in walk_local(tb.node) if isinstance(n, ast.Return)]
+        if not (len(trets) == 1 and ast.unparse(trets[0].value) in (f"len({tparam}) <= cls.payload_length", f"cls.payload_length >= len({tparam})")) or not encs <= {"ascii", "latin_1"}:
+            return False
+        cfg_ = CFG(m_.node)
+        mf_ = cfg_.must_facts()
+        for n in cfg_.nodes:
+            if n.ast is None or n.kind != "stmt":
+                continue
+            for c in [x for x in ast.walk(n.ast) if isinstance(x, ast.Call) and call_name(x) == "bytes" and len(x.args) == 1 and isinstance(x.args[0], ast.BinOp) and isinstance(x.args[0].op, ast.Sub)]:
+                right = inline_locals(m_.node, c.args[0].right)
+                if not (ast.unparse(c.args[0].left) == "cls.payload_length" and isinstance(right, ast.Call) and call_name(right) == "len" and isinstance(right.args[0], ast.Call) and isinstance(right.args[0].func, ast.Attribute) and right.args[0].func.attr == "encode"):
+                    return False
+                enc = right.args[0]
+                if not any(k.arg == "errors" and isinstance(k.value, ast.Constant) and k.value.value == "replace" for k in enc.keywords) or ast.unparse(enc.args[0]) != "cls._encoding":
+                    return False
+                text = ast.unparse(enc.func.value)
+                held = False
+                for t, val in mf_[n.id]:
+                    e = ast.parse(t, mode="eval").body
+                    if val and isinstance(e, ast.Call) and call_name(e) == "cls._test_boundaries" and len(e.args) == 1 and ast.unparse(inline_locals(m_.node, e.args[0])) == text:
+                        held = True
+                if not held:
+                    return False
+                return True
+        return False
 
     builder_reviewed = {
-        "IndexError|DPTSceneControl._to_knx|scene_payload.value[0]": ("DPTSceneNumber.to_knx returns a one-octet array (payload_length 1, DPTArray(<int>))", scene_number_single_octet),
-        "ValueError|DPTString.to_knx|bytes(cls.payload_length - len(raw_bytes))": ("single-octet codecs (ascii / latin_1) with errors='replace' give one octet per character and len(value) <= payload_length was tested", string_padding_non_negative),
-        "ZeroDivisionError|RemoteValueScaling._calc_to_knx|(value - range_from) / delta": ("range_from != range_to is a configuration matter, not a property of the value being sent", None),
+        "IndexError|DPTSceneControl._to_knx|DPTSceneNumber.to_knx(value.scene_number).value[0]": ("DPTSceneNumber.to_knx returns a one-octet array (payload_length 1, DPTArray(<int>))", scene_number_single_octet),
+        "ValueError|DPTString.to_knx|bytes(cls.payload_length - len(str(value).encode(cls._encoding, errors='replace')))": ("single-octet codecs (ascii / latin_1) with errors='replace' give one octet per character and len(value) <= payload_length was tested", string_padding_non_negative),
+        "ZeroDivisionError|RemoteValueScaling._calc_to_knx|(value - range_from) / (range_to - range_from)": ("range_from != range_to is a configuration matter, not a property of the value being sent", None),
         "ValueError|DPTBase.get_dpt|raise ValueError(f'Invalid value type for base class {cls.__name__}: {value_type}')": ("an unknown value_type is refused with the documented ValueError before any value is looked at", None),
-        "ValueError|DPTBase.parse_transcoder|int(string_type)": ("value_type parsing (caught by get_dpt's own handling of the type name), independent of the value", None),
+        "ValueError|DPTBase.parse_transcoder|int($0)": ("value_type parsing (caught by get_dpt's own handling of the type name), independent of the value", None),
     }
     # payload builders raise only ConversionError
     rv = repo.cls("xknx.remote_value.remote_value", "RemoteValue")
